@@ -178,10 +178,11 @@ def make_exports(ctx, seed, count, dense_assign=False):
 
 
 def option_sets(r, ex, n=2):
-    tchoices = [t for t, _ in ex["tracks"]] * 12 + [99]
+    tchoices = [t for t, _ in ex["tracks"]] * 4 + [99]
     res = []
     for _ in range(n):
-        track = r.choice(tchoices + [None]) if ex["tracks"] else None
+        # no track given: about 1 in 4 (accepted only for events with exactly one track overall)
+        track = (None if r.random() < 0.25 else r.choice(tchoices)) if ex["tracks"] else None
         res.append((track, r.random() < 0.5, r.random() < 0.5))
     return res
 
